@@ -324,6 +324,13 @@ func run(ctx *Ctx) *Result {
 			return
 		}
 		ga := lean.checkGraph(c, out, status)
+		certCase := false
+		if ga == nil {
+			if ga = lean.checkCert(c, out, status); ga != nil {
+				certCase = true
+			}
+		}
+		_ = certCase
 		// aaa-server and ldap attribute-map are never created by the tool: a target that needs one the device lacks must be refused
 		missingManual := ""
 		for _, o := range c.spoc.objects() {
@@ -477,6 +484,9 @@ func run(ctx *Ctx) *Result {
 				res.Count("lean:graph-convergence-compared")
 				if conv := final.managedView(managed) == wantView; conv != ga.conv {
 					res.Disagree("vpn-graph-view", c, fmt.Sprintf("dev.go: converged=%v", conv), fmt.Sprintf("NA.Vpn.G.view: converged=%v", ga.conv))
+					if os.Getenv("VPN_DEBUG") != "" {
+						os.WriteFile(fmt.Sprintf("/tmp/b-vpn/dbg-%d.json", len(res.Disagreements)), []byte(fmt.Sprintf("%s\n--SPOC\n%s\n--OUT\n%s\n--GOT\n%s\n--WANT\n%s", c.Dev, c.Spoc, out, final.managedView(managed), wantView)), 0644)
+					}
 				}
 			}
 			if la != nil && la.acc {
@@ -621,6 +631,8 @@ func run(ctx *Ctx) *Result {
 		var c cfgCase
 		if i%4 == 3 {
 			c = g.genCryptoOnly()
+		} else if i%8 == 5 {
+			c = g.genCert()
 		} else if i%4 == 1 {
 			c = g.genGraph()
 		} else {
